@@ -1,5 +1,5 @@
 import JanetModel.Wait.Epoch
-import JanetModel.Wait.Rounding
+import JanetModel.Wait.RoundRN
 import JanetModel.Gen.Wait
 /-
 C07 — a suspended fiber is resumed only by what it is currently waiting for.
@@ -255,6 +255,20 @@ theorem cMs_ge_model (fl : ℚ → ℚ) (hmono : Monotone fl)
   rw [roundHalfUp_us] at this
   simpa [deltaMs, hr] using this
 
+/-- ★ sleep_not_early on doubles with NO assumption about the rounding beyond the IEEE-754 definition of round-to-nearest:
+`fl x` is a binary64 number nearest to `x` (any tie rule).  Monotonicity and exactness on representable half-integers — the two
+hypotheses of `sleep_not_early_ieee` — are proved from that (`Wait/RoundRN.lean`: `IsRoundNearest.monotone`, `.fixes`,
+`halfInt_isBinary64`), and such an `fl` exists (`exists_roundNearest`). -/
+theorem sleep_not_early_rn (fl : ℚ → ℚ) (hfl : IsRoundNearest fl)
+    (δ : ℚ) (hrange : |2 * roundHalfUp (δ * 1000) - 1| ≤ 2 ^ 53)
+    (cfg : Cfg) (hc : cfg.allChecked = true) (ops : List Op) :
+    ∀ e ∈ (run cfg init ops).log, ∀ s, e.task.src = .sleep s (1000 * (cMs fl δ).toNat) →
+      (s : ℤ) + roundHalfUp (δ * 1000) ≤ e.tick ∧ (s : ℤ) + ⌊δ * 1000⌋ ≤ e.tick :=
+  sleep_not_early_ieee fl hfl.monotone (fun k hk => hfl.fixes (halfInt_isBinary64 k hk)) δ hrange cfg hc ops
+
+/-- the hypothesis of `sleep_not_early_rn` is satisfiable -/
+theorem round_nearest_exists : ∃ fl : ℚ → ℚ, IsRoundNearest fl := exists_roundNearest
+
 /-! ### The pinned tree: two sites lack the generation check — witnesses (replayed on the implementation by the check) -/
 
 /-- configuration of the pinned tree: take does not skip stale writers, close does not compare generations -/
@@ -305,10 +319,11 @@ theorem live_registration_is_of_current_epoch (cfg : Cfg) (hc : cfg.allChecked =
     (∀ c, ∀ p ∈ (w.chans c).rp ++ (w.chans c).wp, live w p.fiber p.schedId = true → p.epoch = (w.fibers p.fiber).epoch) ∧
     (∀ tmr ∈ w.timers, live w tmr.fiber tmr.schedId = true → tmr.epoch = (w.fibers tmr.fiber).epoch) ∧
     (∀ k f g, w.procs k = some (f, g) → live w f g = true → w.procEpoch k = (w.fibers f).epoch) ∧
+    (∀ k f g, w.thr k = some (f, g) → live w f g = true → w.thrEpoch k = (w.fibers f).epoch) ∧
     (∀ f, (w.fibers f).listener ≠ none → (w.fibers f).listenEpoch = (w.fibers f).epoch) := by
   intro w
   have h := run_E cfg hc ops init_EInv
-  refine ⟨?_, ?_, ?_, h.ls⟩
+  refine ⟨?_, ?_, ?_, ?_, h.ls⟩
   · intro c p hp hl
     have hl' : p.schedId = (w.fibers p.fiber).schedId := by simp [live] at hl; exact hl.symm
     rcases List.mem_append.mp hp with hp | hp
@@ -320,6 +335,33 @@ theorem live_registration_is_of_current_epoch (cfg : Cfg) (hc : cfg.allChecked =
   · intro k f g hk hl
     have hl' : g = (w.fibers f).schedId := by simp [live] at hl; exact hl.symm
     exact (h.pr k f g hk).2 hl'
+  · intro k f g hk hl
+    have hl' : g = (w.fibers f).schedId := by simp [live] at hl; exact hl.symm
+    exact (h.th k f g hk).2 hl'
+
+/-- the completion of a worker thread (os/shell, ev/thread, ev/do-thread) whose waiter has moved on changes no fiber and no task -/
+theorem stale_thread_completion_inert (cfg : Cfg) (hc : cfg.allChecked = true) (w : World) (k f g : Nat) (v : Val) (e : Bool)
+    (hk : w.thr k = some (f, g)) (hst : live w f g = false) :
+    (thrDone cfg w k v e).fibers = w.fibers ∧ (thrDone cfg w k v e).queue = w.queue := by
+  have htc := allChecked_threadCheck hc
+  simp [thrDone, hk, htc, hst]
+
+/-- Witness (unfixed tree, found through the epoch theorem): fiber 1 awaits a threaded call, is cancelled, blocks on channel 1;
+without a generation test in `janet_ev_default_threaded_callback` the worker's completion resumes it out of that take. -/
+theorem abandoned_threaded_await_resumes_when_unchecked :
+    ∃ e ∈ (run { Cfg.full with threadCheck := false } init
+            [.spawn 1, .run, .thrWait 1 0, .cancel 1 (.err 5), .run, .take 1 1 false, .thrDone 0 (.int 0) false, .run]).log,
+      e.fiber = 1 ∧ e.task.src = .thread 0 ∧ e.task.value = .int 0 ∧ e.task.regGen + 1 ≠ e.task.expected ∧
+      e.task.regEpoch ≠ e.epochAtRun := by
+  decide
+
+example : ∀ e ∈ (run Cfg.full init
+            [.spawn 1, .run, .thrWait 1 0, .cancel 1 (.err 5), .run, .take 1 1 false, .thrDone 0 (.int 0) false, .run]).log,
+      e.fiber = 1 → e.task.src = .spawn ∨ e.task.src = .cancel := by decide
+
+/-- a live threaded await does get its result -/
+example : ((run Cfg.full init [.spawn 1, .run, .thrWait 1 0, .thrDone 0 (.int 0) false, .run]).log.map
+      (fun e => (e.fiber, e.task.src, e.task.value))) = [(1, .thread 0, .int 0), (1, .spawn, .nil)] := by decide
 
 /-- ★ stream completions, in the property's terms (replaces the bare "detach discipline"): in every reachable world a fiber that has
 been resumed since it attached a listener has no listener any more (a surviving listener is of the current epoch), and readiness of a
